@@ -25,7 +25,7 @@ def _replay(job, phase):
     m = dro.Model(NS)
     z = m.rvar(2)
     t = {1: m.dvar()}
-    m.st(t[1] >= -10)
+    pending = [1]          # lower bounds t_k >= -10 are added once the ambiguity set exists (ambiguity() refuses to run after st())
     fset = None
     solved_any = False
     for si, step in enumerate(hist):
@@ -35,6 +35,10 @@ def _replay(job, phase):
         try:
             if act == 'ambiguity':
                 fset = m.ambiguity()
+                fset.probset(m.p == 1.0 / NS)      # fixed probabilities: every scenario's value is pinned by the objective
+                for k_ in pending:
+                    m.st(t[k_] >= -10)
+                pending = []
             elif act == 'suppset':
                 s, S = args
                 its = item_constraints(rso, z, [] if S == ['noset'] else S)
@@ -45,7 +49,10 @@ def _replay(job, phase):
             elif act == 'dvar':
                 k = args[0]
                 t[k] = m.dvar()
-                m.st(t[k] >= -10)
+                if fset is not None:
+                    m.st(t[k] >= -10)
+                else:
+                    pending.append(k)
             elif act == 'adapt':
                 k = args[0]
                 for s in range(NS):
@@ -89,7 +96,11 @@ def _replay(job, phase):
                 if not d['sets']:
                     continue
                 per_s = [solo_value(k, [] if s_ == ['noset'] else s_) for s_ in d['sets']]
-                val = t[k].get()
+                try:
+                    val = t[k].get()
+                except Exception as e:
+                    finding('C09', 'C09:dro:result-query-raised:%s%s' % (type(e).__name__, latetag), 'constraint %d: t.get() raised %r after a successful solve' % (k, e), step=si)
+                    continue
                 if d['evw']:
                     want = per_s
                     got = [float(np.array(v).reshape(-1)[0]) for v in (val if isinstance(val, pd.Series) else [val] * NS)]
@@ -113,13 +124,17 @@ def _replay(job, phase):
 
 
 def _late_tag(hist, si):
-    """Names the history class: a declaration changed after a successful formulation."""
-    first_form = next((i for i, h in enumerate(hist[:si]) if h['act'] in ('solve', 'do_math') and h['expect'] == 'ok'), None)
-    if first_form is None:
-        return ''
-    later = {h['act'] for h in hist[first_form + 1:si]}
-    tags = [a for a in ('dvar', 'adapt', 'suppset') if a in later]
-    return (':after-formulation+' + '+'.join(tags)) if tags else ''
+    """Names the history class: a declaration changed after a formulation was attempted (rule_var() runs and
+    caches before anything can fail), or a decision variable was declared after a constraint object existed."""
+    tags = []
+    first_form = next((i for i, h in enumerate(hist[:si]) if h['act'] in ('solve', 'do_math')), None)
+    if first_form is not None:
+        later = {h['act'] for h in hist[first_form + 1:si]}
+        tags += ['after-formulation+' + a for a in ('dvar', 'adapt', 'suppset') if a in later]
+    first_con = next((i for i, h in enumerate(hist[:si]) if h['act'] in ('st', 'ambiguity') and h['expect'] == 'ok'), None)
+    if first_con is not None and any(h['act'] == 'dvar' for h in hist[first_con + 1:si]):
+        tags.append('dvar-after-constraint')
+    return (':' + ','.join(tags)) if tags else ''
 
 
 def replay(job):
